@@ -25,7 +25,7 @@ RULE = ("one run = one seeded election with 1-4 contests (different risk limits,
         "contest confirmed while another was not, or a reset / dry run happened after p-values moved; distinct = "
         "distinct event-log digest")
 ASSUMPTIONS = [
-    "reference p-values come from a clone of the assertion's configured test (same class, same attributes, fresh object) run on that assertion's data",
+    "reference p-values come from a test object built from the contest's specification alone (test, estimator/bet, their parameters, the contest's g, N, u) and run on that assertion's data",
     "when the reference raises for some assertion, set_p_values must raise too (any type; nothing further is judged in that run); p-values compared to 1e-12 relative",
     "a contest one of whose p-values is NaN is exempt from the 'largest p-value' comparison (NaN is C11's business); completion still requires every p-value <= its limit",
 ]
@@ -70,6 +70,9 @@ def generate(rng, tier):
                 all(c["choice_function"] in (W.PLURALITY, W.APPROVAL) for c in case["world"]["contests"].values()))
     case["margins_via_tally"] = bool(tally_ok and rng.chance(0.5))
     _variants(rng, case)
+    for cs in case["world"]["contests"].values():
+        if cs["test"] == "KAPLAN_KOLMOGOROV" and rng.chance(0.4):
+            cs["random_order"] = False
     case["misconfig"] = [{"kind": rng.pick(MISCONFIG), "contest": rng.pick(sorted(case["world"]["contests"]))}
                          for _ in range(rng.randint(0, 3))]
     return case
@@ -103,7 +106,7 @@ class Model:
                 try:
                     with W.quiet():
                         d, u = asn.mvrs_to_data(mvrs, cvrs)
-                        p, h = clone_test(ns, asn.test, u).test(d)
+                        p, h = W.spec_test(ns, run.world["contests"][cid], asn, u).test(d)
                     ref[(cid, key)] = (float(p), [float(x) for x in h], u)
                 except Exception as e:
                     if exc is None:
@@ -168,6 +171,29 @@ class Model:
                         f"summarize_status returned {done} but per-contest completion is {per} "
                         f"(p-values {[(cid, k, float(a.p_value)) for cid, c in run.contests.items() for k, a in c.assertions.items()]}, limits {limits})")
 
+    def data_now(self, run, mvrs, cvrs):
+        d = {}
+        for cid, con in run.contests.items():
+            for key, asn in con.assertions.items():
+                try:
+                    with W.quiet():
+                        x, u = asn.mvrs_to_data(mvrs, cvrs)
+                    d[(cid, key)] = ([float(v) for v in x], float(u))
+                except Exception:
+                    d[(cid, key)] = None
+        return d
+
+    def check_same_data(self, run, before, mvrs, cvrs, where):
+        after = self.data_now(run, mvrs, cvrs)
+        for k, b in before.items():
+            a = after.get(k)
+            if (a is None) != (b is None) or (a is not None and (len(a[0]) != len(b[0]) or not tight(a[1], b[1])
+                                                             or any(not tight(x, y) for x, y in zip(a[0], b[0])))):
+                self.out.violate("C09.d", f"{where}/data-changed",
+                                 f"after the reset assertion {k} computes other data from the same sample "
+                                 f"({None if b is None else b[0][:5]} before, {None if a is None else a[0][:5]} after)")
+                return
+
     def check_reset(self, run, where):
         out = self.out
         for cid, con in run.contests.items():
@@ -185,6 +211,9 @@ class Model:
     # ---------------------------------------------------------------- hooks
     def after_rebuild(self, run, r):
         self.prev_proved = {}
+
+    def on_malformed(self, run, what):
+        self.out.violate("C09.a", "malformed", f"after set_p_values {what}")
 
     def after_lookup(self, run, r, idx, cards, sample_order, cvr_sample, mvr_ph):
         rnd = run.case["rounds"][r]
@@ -213,11 +242,13 @@ class Model:
         with W.quiet():
             done = run.audit.summarize_status(run.contests)
         self.check_done(run, done, "dry")
+        before = self.data_now(run, mv, cv)
         with W.quiet():
             ns.Assertion.reset_p_values(contests=run.contests)
         if any(r_ is not None and r_[0] < 1 for r_ in ref.values()):
             out.nontrivial = True
         self.check_reset(run, "dry")
+        self.check_same_data(run, before, mv, cv, "dry")
 
     def after_data(self, run, r, data):
         self.ref, self.ref_exc = self.reference(run, run.mvr_sample, run.cvr_sample)
@@ -247,9 +278,11 @@ class Model:
             out.probe("reset between rounds")
             out.ev("op", "reset")
             out.shape("reset")
+            before = self.data_now(run, run.mvr_sample, run.cvr_sample)
             with W.quiet():
                 ns.Assertion.reset_p_values(contests=run.contests)
             self.check_reset(run, "between")
+            self.check_same_data(run, before, run.mvr_sample, run.cvr_sample, "between")
             if any(p < 1 for p in run.p_hist[-1].values()):
                 out.nontrivial = True
             with W.quiet():
